@@ -134,7 +134,10 @@ def run(ctx):
             # the second automaton additionally reads a symbol that does not occur in the first one (or vice versa)
             a["nT"] = b["nT"] = 3
             h = b if ctx.rng.random() < 0.7 else a
-            src = ctx.rng.choice(h["init"])[0] if h["init"] else 0
+            # the extra symbol is read after some other symbol as often as right at the start
+            inits = [q for q, _ in h["init"]]
+            later = [j for i, x, j, _ in h["arcs"] if x is not None and j not in inits]
+            src = ctx.rng.choice(later) if later and ctx.rng.random() < 0.6 else (ctx.rng.choice(inits) if inits else 0)
             dst = ctx.rng.choice(h["final"])[0] if h["final"] else 0
             h["arcs"].append([src, 2, dst, "1/8"])
             F.substochastic(h)
